@@ -30,27 +30,27 @@ Theorem c15_data_as_ref_panics_iff :
 Proof. exact data_as_ref_panics_iff. Qed.
 Print Assumptions c15_data_as_ref_panics_iff.
 
-(* Known class: the virtual position's in-block offset exceeds the data length of the block that
-   seek loads.  Outside it, fill_buf / read_exact after seek never panic, for every file layout. *)
-Theorem c15_bgzf_seek_read_total_partial :
-  forall frames k upos how,
-    upos <= loaded_len (skipn k frames) -> is_panic (seek_then frames k upos how) = false.
+(* After the repair of finding F12 (Data::set_position clamps): fill_buf / read_exact after a seek
+   never panic, for EVERY file layout, frame and in-block offset. *)
+Theorem c15_bgzf_seek_read_total :
+  forall frames k upos how, is_panic (seek_then frames k upos how) = false.
 Proof. exact seek_then_total. Qed.
-Print Assumptions c15_bgzf_seek_read_total_partial.
+Print Assumptions c15_bgzf_seek_read_total.
 
-(* ... and inside it read_exact ALWAYS panics (finding F12) *)
-Theorem c15_bgzf_seek_read_exact_refuted :
+(* The reader before the repair: total only when the offset lies within the loaded block, and
+   read_exact ALWAYS panicked beyond it — the recorded (fixed) finding. *)
+Theorem c15_bgzf_seek_read_unclamped_total_partial :
+  forall frames k upos how,
+    upos <= loaded_len (skipn k frames) -> is_panic (seek_then_unclamped frames k upos how) = false.
+Proof. exact seek_then_unclamped_total. Qed.
+Print Assumptions c15_bgzf_seek_read_unclamped_total_partial.
+
+Theorem c15_bgzf_seek_read_exact_unclamped_refuted :
   forall frames k upos how,
     how <> 0 -> loaded_len (skipn k frames) < upos ->
-    seek_then frames k upos how = Panic S_DATA_SLICE.
-Proof. exact seek_read_exact_panics. Qed.
-Print Assumptions c15_bgzf_seek_read_exact_refuted.
-
-Theorem known_bgzf_seek_witness :
-  exists frames k upos how, loaded_len (skipn k frames) < upos /\
-    seek_then frames k upos how = Panic S_DATA_SLICE.
-Proof. exists [5], 0%nat, 6, 1. split; vm_compute; reflexivity. Qed.
-Print Assumptions known_bgzf_seek_witness.
+    seek_then_unclamped frames k upos how = Panic S_DATA_SLICE.
+Proof. exact seek_read_exact_unclamped_panics. Qed.
+Print Assumptions c15_bgzf_seek_read_exact_unclamped_refuted.
 
 (* ---- (2) CSI: ReferenceSequence::query on an arbitrary geometry and bin id ---------------- *)
 
@@ -101,7 +101,7 @@ Print Assumptions known_rans_freq_witness.
 (* the full statement is refuted by the witnesses above *)
 Theorem c15_full_statement_refuted : ~ c15_full_statement.
 Proof.
-  intros [H _]. specialize (H [5] 0%nat 6 1). vm_compute in H. discriminate.
+  intros [_ [H _]]. specialize (H 0 5 0 1 1). vm_compute in H. discriminate.
 Qed.
 Print Assumptions c15_full_statement_refuted.
 
